@@ -144,4 +144,25 @@ def selectRangesB (range : Int) : Buf V → List (Int × V) → List Int → Lis
     let (b', out') := selectPointsB range b (r - range) r out
     out' :: selectRangesB range b' out' rs
 
+/-- `sampleRing.reduceDelta(d)` for `d` not above the current delta: free the head of everything
+older than the most recent element minus `d` -/
+def reduceRing (d : Int) (ring : List (Sample V)) : List (Sample V) :=
+  match ring.getLast? with
+  | none => ring
+  | some l => ring.dropWhile (fun x => x.t < l.t - d)
+
+/-- `stepRange := selectRange; if stepRange > step { stepRange = step }` -/
+def stepRange (range step : Int) : Int := if range > step then step else range
+
+/-- `matrixSelector.Next` for one series: per step `selectPoints` into the reused `previousPoints`,
+then `ReduceDelta(min(selectRange, step))` ("only buffer stepRange milliseconds from the second
+step on"); `delta` is the ring's current delta -/
+def selectRangesM (range step : Int) : Int → Buf V → List (Int × V) → List Int → List (List (Int × V))
+  | _, _, _, [] => []
+  | delta, b, out, r :: rs =>
+    let (b', out') := selectPointsB delta b (r - range) r out
+    let sr := stepRange range step
+    if sr > delta then out' :: selectRangesM range step delta b' out' rs
+    else out' :: selectRangesM range step sr { b' with ring := reduceRing sr b'.ring } out' rs
+
 end PromqlVerif
